@@ -1773,6 +1773,17 @@ impl Fs {
             return Err("No such file or directory");
         }
 
+        // POSIX: if both names refer to the same existing file, rename does
+        // nothing and succeeds.
+        if from == to {
+            return if self.file_exists(from) || self.dir_exists(from) || self.symlink_exists(from)
+            {
+                Ok(())
+            } else {
+                Err("No such file or directory")
+            };
+        }
+
         // Try renaming a file
         if self.file_exists(from) {
             // Can't rename file onto directory
